@@ -265,10 +265,15 @@ class RecSampler:
         self.reentered = False
         self.nested = False
         self.raise_exc = None
+        self.limit, self.runaway = None, False
 
     def __call__(self, source, **kw):
         L = lib()
         self.calls += 1
+        if self.limit is not None and self.calls > self.limit:
+            # an operation that keeps drawing is stopped from inside, deterministically (not by the wall clock)
+            self.runaway = True
+            raise RuntimeError(f"simkit: sampler invoked {self.calls} times")
         if self.raise_at is not None and self.calls - 1 == self.raise_at:
             self.raised = True
             raise {"StopIteration": StopIteration, "ValueError": ValueError, "KeyError": KeyError, "RuntimeError": RuntimeError}.get(
@@ -368,6 +373,7 @@ def execute(scn, ctx):
             sampler = RecSampler(s_kind, inner, sspec.get("which", 0), raise_at=ra)
             sampler.reenter = bool(sspec.get("reenter"))
             sampler.raise_exc = next((f.get("exc") for f in (op.get("faults") or []) if f["kind"] == "sampler_raise"), None)
+            sampler.limit = 6 * int(cfg["nb_samples"]) + 40
             config = M.build_config(dict(cfg, sampling_method={"callable": s_kind}, stratified_sampling=sspec.get("outer_strat")), sampler=sampler)
         else:
             config = M.build_config(dict(sspec, **cfg))
@@ -436,6 +442,12 @@ def execute(scn, ctx):
             del _warnings.filters[: max(0, len(_warnings.filters) - env0[1])]
         if M.fingerprint(src) != fp_before or M.fingerprint(list(callers.values())) != cfp or M.fingerprint(arrs) != arr_fp:
             bad("inputs_unchanged", f"{fn_name} modified the Scores object or a caller-supplied array")
+        if sampler is not None and not control_fault and fn_name != "simultaneous_joint_region_ci" and spec.get("subclass") != "identity" and (sampler.runaway or (res["ok"] and sampler.calls != int(cfg["nb_samples"]))):
+            # the intervals are bootstrap intervals of the configured number of resamples of the configured sampler
+            bad("resamples_match_config", f"{fn_name} invoked the configured sampler {'more than ' + str(sampler.limit) if sampler.runaway else sampler.calls} times "
+                                          f"for nb_samples={cfg['nb_samples']}")
+            if sampler.runaway:
+                control_fault = True
         outcome = "ok"
         swallowed = False
         if res["ok"] and sampler is not None and sampler.raised and sampler.calls - 1 <= int(cfg["nb_samples"]) - 1:
